@@ -174,6 +174,16 @@ def Upsert.exec (i : Upsert) (ps : Env) : Option SRow → Res
       if (cond.eval ps r).truthy then { row := some (applySets ps r sets r), affected := 1 }
       else { row := some r, affected := 0 }
 
+/-! ### Whole-table semantics (every collection's rows in one list, as in SQLite) -/
+
+/-- `UPDATE documents SET … WHERE …` over the whole table: every row the condition accepts is rewritten, the others stay. -/
+def Update.execTable (u : Update) (ps : Env) (t : List SRow) : List SRow :=
+  t.map (fun r => if (u.cond.eval ps r).truthy then applySets ps r u.sets r else r)
+
+/-- `DELETE FROM documents WHERE …` / the rows a `SELECT … WHERE …` reads. -/
+def Select.deleteTable (q : Select) (ps : Env) (t : List SRow) : List SRow := t.filter (fun r => !q.selects ps r)
+def Select.readTable (q : Select) (ps : Env) (t : List SRow) : List SRow := t.filter (fun r => q.selects ps r)
+
 /-- The conjuncts of a condition. -/
 def E.conjuncts : E → List E
   | .and a b => a.conjuncts ++ b.conjuncts
